@@ -300,6 +300,26 @@ def gen_curve(rng, n, tier):
             L.append("%saddm %s %s n" % (pfx, z000, E.aff(p, rng, canon=False)))
         L.append("%seq %s %s" % (pfx, z000, z000)); L.append("%sadd %s %s n" % (pfx, z000, z000))
         L.append("%saddm %s %s a" % (pfx, z000, E.aff(None, rng, canon=False)))
+        # representatives related by a cube root of unity w of Fq (j = 0: (X,Y,Z) ~ (w^2 X, Y, w Z) is the SAME point, (X,Y,wZ) a different
+        # one with the same y and the same z^3), and z = w, w^2 exactly (z^3 = 1 but z != 1)
+        w_ = next(pow(g_, (Q - 1) // 3, Q) for g_ in range(2, 50) if pow(g_, (Q - 1) // 3, Q) != 1)
+        def emb(v): return v if E is E1 else (v, 0)
+        for p in [q_ for q_ in pool if q_ is not None][:3]:
+            for wz in (w_, w_ * w_ % Q):
+                z0 = F.rand(rng)
+                while F.is_zero(z0): z0 = F.rand(rng)
+                for zz in (z0, F.one):
+                    z1 = F.mul(zz, emb(wz))
+                    def rep(z): z2 = F.mul(z, z); return F.hex(F.mul(p[0], z2)) + " " + F.hex(F.mul(p[1], F.mul(z2, z))) + " " + F.hex(z)
+                    same_a, same_b = rep(zz), rep(z1)                      # the same point, z scaled by w
+                    z2_ = F.mul(zz, zz)
+                    other = F.hex(F.mul(p[0], z2_)) + " " + F.hex(F.mul(p[1], F.mul(z2_, zz))) + " " + F.hex(z1)   # X, Y kept, z scaled: another point
+                    L.append("%seq %s %s" % (pfx, same_a, same_b)); L.append("%seq %s %s" % (pfx, same_a, other)); L.append("%seq %s %s" % (pfx, other, same_a))
+                    L.append("%sadd %s %s n" % (pfx, same_a, same_b)); L.append("%sadd %s %s n" % (pfx, same_a, other))
+                    for s_ in pool[:3]:
+                        L.append("%saddm %s %s n" % (pfx, same_b, E.aff(s_, rng, canon=True)))
+                    L.append("%saddm %s %s a" % (pfx, same_b, E.aff(p, rng))); L.append("%saddm %s %s n" % (pfx, same_b, E.aff(E.neg(p), rng)))
+                    L.append("%sdbl %s n" % (pfx, same_b)); L.append("%stoaff %s" % (pfx, same_b))
         # same point, different representatives given to add / eq
         for p in pool:
             L.append("%sadd %s %s n" % (pfx, J(p, "rand"), J(p, "rand")))
@@ -368,7 +388,9 @@ def gen_scalar(rng, n, tier):
         small = None
         while small is None: small = E.mul(R, E.rand_curve_point(rng))
         for p in (E.rand_curve_point(rng), small):
-            for k in ((1 << cb) - 1, (1 << (cb - 1)) + rng.getrandbits(cb - 2), BLS_X ** 2 + 1 if cb == 128 else (1 << 300) + 7):
+            ladder = [1, 2, BLS_X - 1, BLS_X, BLS_X + 1, 1 << 64, BLS_X ** 2 - 1, BLS_X ** 2, BLS_X ** 2 + 1, (1 << 100) + 12345, (1 << 128) - (1 << 64), (1 << 128) - 1,
+                      R - 1, R, R + 1, 1 << 255, (1 << 256) - 1, 1 << 256, (1 << 256) + 1, (1 << 300) + 7, (1 << (cb - 1)) + rng.getrandbits(cb - 2), (1 << cb) - 1]
+            for k in sorted({k_ for k_ in ladder if k_ < (1 << cb)}):
                 L.append("%smulc %s %s" % (pfx, E.aff(p, rng), hx(k, cb)))
                 L.append("%smulcp %s %s %s" % (pfx, E.jac(p, rng), hx(k, cb), rng.choice(["n", "a"])))
     for p in [E1.gen, E1.rand_subgroup_point(rng, 32), None]:
